@@ -226,8 +226,30 @@ def shard(shard_no, nshards, seed, tier, extra):
     return res.to_dict()
 
 
+def miri_requests(shard_no, nshards, seed):
+    rng = common.rng_for(seed, "c09-miri", shard_no)
+    B = boundary("quick", common.rng_for(seed, "c09-boundary"))
+    ops = ["mul", "div", "sdiv", "mod", "smod", "exp", "shl", "shr", "sar", "add", "sub"]
+    trees = []
+    idx = 0
+    small = [0, 1, 2, 255, 256, 257, 1 << 32, 1 << 64, 1 << 255, te.MASK, te.SIGN, te.SIGN + 1, 31, 8]
+    for op in ops:
+        for a in small:
+            for b in small:
+                idx += 1
+                if idx % nshards == shard_no:
+                    trees.append([op, te.const(a), te.const(b)])
+    for _ in range(20):
+        trees.append(rand_tree(rng, B, rng.randint(2, 4), 3))
+    return [{"op": "batch", "reqs": [{"op": "fold", "tree": t} for t in trees[i:i + 40]]} for i in range(0, len(trees), 40)]
+
+
 def run(tier, seed, t0):
     res = common.Result.merge(common.run_sharded(shard, seed, tier))
+    if tier == "thorough":
+        from vlib import sanitize
+        m = sanitize.miri_layer(PROP, miri_requests, seed, tier)
+        res = common.Result.merge([res.to_dict(), m.to_dict()])
     return common.finish(
         PROP, tier, seed, res, "exploration",
         "all 21 foldable operators x operand pairs from the boundary set (0,1,2,255..257,2^32,2^64,2^k and 2^k+-1 for "
